@@ -36,7 +36,7 @@ async function build (tier) {
   dims.push({ name: 'scope', symbols: Object.keys(SCOPES), free: true })
   dims.push({ name: 'body', symbols: Object.keys(BODIES), free: true })
   dims.push({ name: 'fileinstr', symbols: [true, false], free: true })
-  dims.push({ name: 'sep', symbols: ['; ', '\n'], free: tier === 'thorough' })
+  dims.push({ name: 'sep', symbols: ['; ', '\n'], free: true })
   const r = enumerate(dims, { k: 0, valid: (cur, i) => !(i >= 1 && i < L && cur['d' + (i - 1)] === '' && cur['d' + i] !== '') })
   const leaves = r.leaves.map((l) => {
     const p = l.pick
